@@ -249,6 +249,7 @@ structure World where
   files : List Path      -- existing regular files
   dirs : List Path       -- existing directories
   db : List Name         -- tasks with saved state
+  links : List (Path × Path) := []   -- symbolic links: (path of the link, resolved path it points to)
 deriving Repr
 
 inductive Ev
@@ -259,6 +260,8 @@ inductive Ev
   | rmFile (t : Name) (p : Path)
   | rmDir (t : Name) (p : Path)
   | notEmpty (t : Name) (p : Path)
+  | crash (t : Name) (p : Path)     -- `os.rmdir` on a symbolic link to an empty directory: NotADirectoryError, the
+                                    --   command dies here; what the model computes after this event is not the code's
 deriving DecidableEq, Repr
 
 /-- code-point lexicographic `≤` on strings (python `str` ordering) -/
@@ -277,11 +280,25 @@ def sortDesc (ts : List Path) : List Path := ts.foldr insertDesc []
 /-- `p` lies strictly below directory `d` -/
 def below (d p : Path) : Bool := (d ++ ['/']).isPrefixOf p
 /-- `os.listdir(d)` is non-empty -/
-def hasEntry (w : World) (d : Path) : Bool := (w.files ++ w.dirs).any (below d)
+def hasEntry (w : World) (d : Path) : Bool := (w.files ++ w.dirs ++ w.links.map Prod.fst).any (below d)
+
+/-- where the symbolic link `p` points to (`none`: `p` is not a link) -/
+def linkDest (w : World) (p : Path) : Option Path := alookup p w.links
+
+/-- a target that is a symbolic link to `d`: `os.path.isfile` / `isdir` / `listdir` follow the link, `os.remove`
+    removes the link itself (never its destination), `os.rmdir` refuses a link -/
+def rmLink (dry : Bool) (t : Name) (st : World × List Ev) (p d : Path) : World × List Ev :=
+  if d ∈ st.1.files then
+    ((if dry then st.1 else { st.1 with links := st.1.links.filter (fun l => l.1 ≠ p) }), st.2 ++ [Ev.rmFile t p])
+  else if d ∈ st.1.dirs then
+    if hasEntry st.1 d then (st.1, st.2 ++ [Ev.notEmpty t p])
+    else (st.1, st.2 ++ (if dry then [Ev.rmDir t p] else [Ev.rmDir t p, Ev.crash t p]))
+  else st
 
 def rmTarget (dry : Bool) (t : Name) (st : World × List Ev) (p : Path) : World × List Ev :=
   if p ∈ st.1.files then
     ((if dry then st.1 else { st.1 with files := st.1.files.filter (· ≠ p) }), st.2 ++ [Ev.rmFile t p])
+  else if (linkDest st.1 p).isSome then rmLink dry t st p ((linkDest st.1 p).getD [])
   else if p ∈ st.1.dirs then
     if hasEntry st.1 p then (st.1, st.2 ++ [Ev.notEmpty t p])
     else ((if dry then st.1 else { st.1 with dirs := st.1.dirs.filter (· ≠ p) }), st.2 ++ [Ev.rmDir t p])
@@ -335,6 +352,12 @@ structure Result where
   events : List Ev
   oof : Bool
 deriving Repr
+
+def isCrash : Ev → Bool
+  | .crash _ _ => true
+  | _ => false
+/-- the command died in `os.rmdir` (symbolic link to an empty directory among the targets) -/
+def Result.crashed (r : Result) : Bool := r.events.any isCrash
 
 /-- the whole command -/
 def run (tbl : Table) (r : Req) (w : World) : Except Err Result :=
@@ -393,7 +416,8 @@ def visible (tbl : Table) (w : World) (t : Name) : Bool :=
   | some tk => match tk.kind with
     | .nothing => false
     | .actions as => !as.isEmpty
-    | .targets => tk.targets.any fun p => p ∈ w.files || p ∈ w.dirs
+    | .targets => tk.targets.any fun p => p ∈ w.files || p ∈ w.dirs ||
+        (match linkDest w p with | some d => d ∈ w.files || d ∈ w.dirs | none => false)
 
 /-- the declarative clean set, computed without the traversal: `tbl.length` rounds of adding dependencies, or the
     base list plus direct sub-tasks -/
@@ -447,6 +471,7 @@ def monitorEffects (tbl : Table) (r : Req) (cleaned : List Name) (w w' : World) 
   if r.dryrun then
     subset' w.files w'.files && subset' w'.files w.files && subset' w.dirs w'.dirs && subset' w'.dirs w.dirs
       && subset w.db w'.db && subset w'.db w.db
+      && w.links.all (· ∈ w'.links) && w'.links.all (· ∈ w.links)
   else
     let tg := cleanedTargets tbl cleaned
     let ep := effPaths tbl cleaned
@@ -456,10 +481,16 @@ def monitorEffects (tbl : Table) (r : Req) (cleaned : List Name) (w w' : World) 
     && w.dirs.all (fun d => d ∈ w'.dirs || d ∈ tg)
     && cleaned.all (fun t => match tbl[t]? with
         | some tk => tk.kind != .targets ||
-            tk.targets.all (fun d => !(d ∈ w.dirs) || !((w.files ++ w.dirs).all (fun p => !below d p || p ∈ tk.targets)) || !(d ∈ w'.dirs))
+            tk.targets.all (fun d => !(d ∈ w.dirs) || !((w.files ++ w.dirs).all (fun p => !below d p || p ∈ tk.targets))
+              || w.links.any (fun l => below d l.1) || !(d ∈ w'.dirs))
         | none => true)
     && subset w'.db w.db
     && w.db.all (fun t => (t ∈ w'.db) == !(r.forget && t ∈ cleaned))
+    -- symbolic links: none appears; one disappears only if it is itself a target; a target link to an existing
+    -- file that the command leaves alone is removed (the link, never its destination: see the files clause)
+    && w'.links.all (· ∈ w.links)
+    && w.links.all (fun l => l ∈ w'.links || l.1 ∈ tg)
+    && w.links.all (fun l => !(l.1 ∈ tg && l.2 ∈ w.files && !(l.2 ∈ tg) && !(l.2 ∈ ep)) || !(l ∈ w'.links))
 where
   subset' (a b : List Path) : Bool := a.all (· ∈ b)
 
